@@ -12,6 +12,7 @@ CONSTANTS
   ExportMin = %d
   FormChoices = {%s}
   FormSample = %s
+  SampleAbove = %d
   ModeChoices = {%s}
 INVARIANTS Export
 CHECK_DEADLOCK FALSE
@@ -25,7 +26,7 @@ PROPS = {
     "C10": dict(mode="relink", forms='"source"', modes='"none"', race=False,
                 rule="relation: output FileDescriptorProtos fed back as SearchResult{Proto} (and dependencies as SearchResult{Desc}) "
                      "compile successfully to byte-identical deterministic encodings, with and without source info"),
-    "C09": dict(mode="forms", forms='"source", "ast", "parse", "proto"', modes='"none", "standard", "extra"', race=True,
+    "C09": dict(mode="forms", forms='"source", "ast", "parse", "proto", "protosi"', modes='"none", "standard", "extra"', race=True,
                 rule="relation: every assignment of input form (source / AST / ParseResult / Proto) to the files of the workspace x "
                      "source-info mode gives descriptors byte-identical (source info aside) to the all-source compilation; supplied "
                      "protos and parse results are snapshotted and unchanged after one and after two concurrent compilations (-race build)"),
@@ -71,7 +72,7 @@ def run(pid, tier, replay=None):
             modes = P["modes"]
             if pid == "C09" and tier == "quick" and not sim:
                 modes = '"standard"'     # quick: all form assignments in one mode; the simulated cases draw random modes
-            fh.write(CFG % (maxf, exportmin, P["forms"], "TRUE" if sim else "FALSE", modes))
+            fh.write(CFG % (maxf, exportmin, P["forms"], "TRUE" if sim else "FALSE", 30 if tier == "quick" else 700, modes))
         casefile = os.path.join(wd, "cases_%s.jsonl" % name)
         n = 0
         seen = set()
